@@ -584,7 +584,7 @@ func TestVerif_C03_Expect(t *testing.T) {
 			targets := []string{"publish", "connect", "call", "userControl", "windowAck", "setPeerBandwidth", "setChunkSize", "createStreamRes", "connectRes"}
 			tk := targets[r.Intn(len(targets))]
 			useMsg := r.Chance(1, 3)
-			prefixKinds := []string{"setChunkSize", "windowAck", "setPeerBandwidth", "userControl", "call", "closeStream", "play", "createStream", "publish", "connect", "res"}
+			prefixKinds := []string{"setChunkSize", "windowAck", "setPeerBandwidth", "userControl", "call", "closeStream", "play", "createStream", "publish", "connect", "res", "connectRes"}
 			var kinds []string
 			var payloads [][]byte
 			var types []MessageType
@@ -595,8 +595,10 @@ func TestVerif_C03_Expect(t *testing.T) {
 					// B registers a request first, so that the response is decodable by B
 					if kind == "connectRes" {
 						req := NewConnectAppPacket()
+						req.TransactionID = amf0.Number(nextTid) // distinct ids: several responses may be in flight before B reads them
 						pb.onPacketWriten(nil, req)
-						p := NewConnectAppResPacket(1)
+						p := NewConnectAppResPacket(amf0.Number(nextTid))
+						nextTid++
 						p.CommandObject = amfx.BuildObject(verifGenObjTree(r))
 						pkt = p
 					} else {
@@ -647,14 +649,12 @@ func TestVerif_C03_Expect(t *testing.T) {
 				return nil
 			}
 			np := r.Range(0, 8)
-			connectUsed := tk == "connect" || tk == "connectRes"
 			for k := 0; k < np; k++ {
 				pk := prefixKinds[r.Intn(len(prefixKinds))]
-				if pk == "connect" {
-					if connectUsed {
-						continue
-					}
-					connectUsed = true
+				// structurally identical packet types before the target (a connect request before an awaited
+				// connect response and vice versa) are the interesting neighbours of a typed wait
+				if (tk == "connectRes" || tk == "connect") && r.Chance(1, 3) {
+					pk = map[string]string{"connectRes": "connect", "connect": "connectRes"}[tk]
 				}
 				send(pk)
 			}
